@@ -84,6 +84,14 @@ type Reader struct {
 	ended    bool
 }
 
+// Reset puts the same reader object onto a new stream (as bufio.Reader.Reset
+// and pooled connection wrappers do): whatever a decoder remembered about
+// this object belongs to the old stream.
+func (r *Reader) Reset(data []byte) {
+	r.Data, r.End, r.E, r.C, r.Pat = data, EndEOF, nil, nil, nil
+	r.Off, r.zeros, r.patZero, r.ended, r.AfterEnd, r.MixEnd = 0, 0, 0, false, 0, false
+}
+
 func (r *Reader) endErr() error {
 	if r.End == EndErr {
 		return r.E
